@@ -37,11 +37,11 @@ def ref_kind(rng, cp, allow_lit):
         opts += ["e"] * 3
     k = rng.choice(opts)
     if k == "d":
-        return "d" + "0" * rng.choice([0, 0, 0, 1, 3]) + str(cp)
+        return "d" + "0" * rng.choice([0, 0, 0, 1, 3, 12, 40]) + str(cp)
     if k == "h":
         h = "%x" % cp
         h = "".join(c.upper() if rng.random() < 0.5 else c for c in h)
-        return "h" + "0" * rng.choice([0, 0, 0, 1, 4]) + h
+        return "h" + "0" * rng.choice([0, 0, 0, 1, 4, 9, 17, 40]) + h
     return k
 
 
@@ -384,6 +384,32 @@ def m_badref_attr(rng, doc):
     return _mut_attval(rng, doc, lambda a: _ins(rng, a[5], bad))
 
 
+def _huge_ref(rng):
+    """a numeric character reference whose value is far outside the code-point range - around and above 2^32 / 2^64,
+    decimal and hexadecimal, with leading zeros - and whose low 32 (64) bits are sometimes a legal character: an
+    accumulator that wraps around would accept it.  Returned as (cp, repr) with cp != value, so wf_ldoc is false."""
+    low = rng.choice([0x41, 0x20AC, 0x10000, 0x9, 0x10FFFF, 0x0, 0x1, 0xFFFE, 0x3C])
+    big = rng.choice([1 << 32, 1 << 64, 3 << 32, (1 << 32) * 0x10001, 1 << 63, 1 << 96, (1 << 31) * 2])
+    v = big + low
+    if rng.random() < 0.25:
+        v = rng.choice([(1 << 32) - 1, (1 << 32) + 0x110000, (1 << 64) - 1, 0xFFFFFFFF00000041, 10 ** 30 + 65])
+    z = "0" * rng.choice([0, 0, 1, 7, 30])
+    if rng.random() < 0.5:
+        h = "%x" % v
+        h = "".join(c.upper() if rng.random() < 0.5 else c for c in h)
+        return (low if low else 0x41, "h" + z + h)
+    return (low if low else 0x41, "d" + z + str(v))
+
+
+def m_hugeref_text(rng, doc):
+    return _mut_text(rng, doc, [_huge_ref(rng)])
+
+
+def m_hugeref_attr(rng, doc):
+    bad = _huge_ref(rng)
+    return _mut_attval(rng, doc, lambda a: _ins(rng, a[5], bad))
+
+
 def m_dashdash_comment(rng, doc):
     k = rng.randrange(3)
     body = [0x61, 0x2D, 0x2D, 0x62] if rng.random() < 0.5 else [0x2D, 0x2D]
@@ -557,6 +583,7 @@ ABSTRACT_OPS = [
     ("text-before-root", m_text_before_root), ("cdata-outside", m_cdata_outside), ("bad-elem-name", m_bad_elem_name),
     ("bad-attr-name", m_bad_attr_name), ("no-ws-between-attrs", m_no_ws_between_attrs),
     ("undefined-entity", m_undefined_entity), ("entity-no-semi", m_entity_no_semi), ("charref-forms", m_charref_forms),
+    ("hugeref-text", m_hugeref_text), ("hugeref-attr", m_hugeref_attr),
 ]
 
 
@@ -702,9 +729,21 @@ def t_nul(rng, u, info):
 def t_lone_surrogate(rng, u, info):
     """only meaningful for UTF-16 input"""
     s = rng.choice([[0xD800], [0xDBFF], [0xDC00], [0xDFFF], [0xDC00, 0xD800], [0xD800, 0xD800, 0xDC00], [0xD800, 0x61]])
-    where = rng.choice(["text", "attr", "attr-end", "comment", "pi", "cdata", "name"])
+    where = rng.choice(["text", "attr", "attr-end", "comment", "pi", "cdata", "name", "text-ref", "attr-ref"])
     i = info["root_name_end"]
     j = _find(u, [0x3E], i)
+    if where in ("text-ref", "attr-ref"):
+        # an unpaired high surrogate directly before a character / predefined-entity reference, with or without a low
+        # surrogate after the reference (class sur-before-ref: finding F63, fixes/C02-surrogate-before-reference.patch)
+        hi = rng.choice([0xD800, 0xDBFF, 0xD83D])
+        ref = S(rng.choice(["&amp;", "&#65;", "&#x10000;", "&lt;", "&#x20;"]))
+        tail = rng.choice([[0xDC00], [0xDFFF], [], S("b")])
+        s2 = S(rng.choice(["", "a"])) + [hi] + ref + tail
+        if where == "attr-ref":
+            return _splice_root(u, info, S(" q=\"") + s2 + S("\"")), "sur-before-ref"
+        if j < 0 or u[j - 1] == 0x2F:
+            return None
+        return u[:j + 1] + s2 + u[j + 1:], "sur-before-ref"
     if where in ("attr", "attr-end"):
         v = S(" q=\"a") + s + (S("b\"") if where == "attr" else S("\""))
         # known finding F42: an unpaired high surrogate directly before the closing quote is not diagnosed
